@@ -198,7 +198,7 @@ def sealed_cases(s):
 
 
 def bounded(check, tier, seed):
-    n = 30000 if tier == "thorough" else 1600
+    n = 30000 if tier == "thorough" else 8000
     s = Suite(check, "C13.programs", f"{n} random straight-line programs (<=8 steps) over a pool of FmtStr values: 25 operations of the public "
               "API incl. str operands with wide/combining characters, observations (s, len, str, width, repr, hash) interleaved at every "
               "position; after every step every pool value is compared with its snapshot and its memoised views with a fresh copy; "
